@@ -1,10 +1,10 @@
 package main
 
 import (
-	"github.com/bolkedebruin/rdpgw/cmd/rdpgw/security"
-	"context"
 	"bytes"
+	"context"
 	"fmt"
+	"github.com/bolkedebruin/rdpgw/cmd/rdpgw/security"
 	"net/http"
 	"os"
 	"path/filepath"
@@ -56,6 +56,9 @@ type TunnelPlan struct {
 	//  partial:<n> the first n bytes of a 110-byte DATA packet
 	//  ping        a websocket PING control frame
 	//  send:<step> the canonical packet hs | tc | ta | cc, without waiting for its answer
+	//  wait:<flag> block until another script signals <flag>; signal:<flag> sets it
+	//  barrier     block until the scripts of all tunnels of the scenario are here
+	//  probe       record which resources of this very tunnel the gateway still holds now (other tunnels are alive)
 	Chunks      [][]byte // what the backend of this tunnel writes after accepting
 	BackendEnds bool     // backend closes after its chunks
 	SplitLegacy bool     // legacy: open IN and OUT from two concurrent threads
@@ -77,22 +80,26 @@ type TunnelObs struct {
 	SetupFailed string
 	ClientConns []*vnet.PipeConn
 	client      *TunnelClient
+	// Probe: what of this tunnel was still held by the gateway when its script reached "probe" ("" = no probe,
+	// "released" = nothing)
+	Probe string
 }
 
 // ConcScenario is a set of tunnels run concurrently.
 type ConcScenario struct {
-	Name       string
-	Plans      []TunnelPlan
-	Gw         GwCfg
-	NegIdle    bool
-	Segmented  bool // client connections deliver one write per read
-	RealCookie bool // cookies are tokens minted by security.GeneratePAAToken and checked by security.CheckPAACookie (userinfo round trip to the scripted IdP is a scheduling point)
-	PostRead   bool // scheduling point after every gateway read on a client connection
-	ClientWindow int // > 0: gateway writes to a client block once that many bytes are unread
-	RoundRobin bool // default schedule advances the clients in lockstep (cyclic candidate order)
-	Deviation  bool // bound deviations from the default schedule instead of preemptions (multi-tunnel scenarios)
-	MaxSteps   int
-	WithEnrich bool
+	Name         string
+	Plans        []TunnelPlan
+	Gw           GwCfg
+	NegIdle      bool
+	IdleTimeout  int  // > 0: the gateway is configured with (and announces) an idle timeout of that many minutes
+	Segmented    bool // client connections deliver one write per read
+	RealCookie   bool // cookies are tokens minted by security.GeneratePAAToken and checked by security.CheckPAACookie (userinfo round trip to the scripted IdP is a scheduling point)
+	PostRead     bool // scheduling point after every gateway read on a client connection
+	ClientWindow int  // > 0: gateway writes to a client block once that many bytes are unread
+	RoundRobin   bool // default schedule advances the clients in lockstep (cyclic candidate order)
+	Deviation    bool // bound deviations from the default schedule instead of preemptions (multi-tunnel scenarios)
+	MaxSteps     int
+	WithEnrich   bool
 }
 
 // ConcResult is everything the oracles of C06b/C07/C09/C11 need.
@@ -328,6 +335,37 @@ func runClient(w *World, h http.Handler, p TunnelPlan, o *TunnelObs) {
 		case op == "settle":
 			// let the gateway react to what happened so far before the next step
 			vsched.WaitIdle()
+		case op == "barrier":
+			w.Arrived++
+			vsched.Point("barrier", func() bool { return w.Arrived >= w.Parties })
+		case strings.HasPrefix(op, "wait:"):
+			name := op[5:]
+			vsched.Point("wait-for-"+name, func() bool { return w.Flags[name] })
+		case strings.HasPrefix(op, "signal:"):
+			if w.Flags == nil {
+				w.Flags = map[string]bool{}
+			}
+			w.Flags[op[7:]] = true
+		case op == "probe":
+			var held []string
+			for _, h := range w.Handlers {
+				if strings.HasSuffix(h.Name, "-"+p.ConnID) && h.RW.Hijacked && !h.Srv.IsClosed() {
+					held = append(held, "client-connection-left-open:"+strings.SplitN(h.Name, "-", 2)[0])
+				}
+			}
+			if o.BackendIdx >= 0 && !w.Backends[o.BackendIdx].GwSide.IsClosed() {
+				held = append(held, "backend-connection-left-open")
+			}
+			for k, s := range protocol.VerifConnections() {
+				if k == p.ConnID || s.RDGId == p.ConnID {
+					held = append(held, "registry-entry-left")
+				}
+			}
+			sort.Strings(held)
+			o.Probe = strings.Join(held, " ")
+			if o.Probe == "" {
+				o.Probe = "released"
+			}
 		}
 	}
 }
@@ -439,6 +477,7 @@ func RunConc(sc ConcScenario, prefix []int, logOn bool) *ConcResult {
 		w.Segmented = sc.Segmented
 		w.PostRead = sc.PostRead
 		w.ClientWindow = sc.ClientWindow
+		w.Parties = len(sc.Plans)
 		res.World = w
 		cfg := sc.Gw
 		if cfg.Hosts == nil {
@@ -446,6 +485,9 @@ func RunConc(sc ConcScenario, prefix []int, logOn bool) *ConcResult {
 		}
 		if sc.NegIdle {
 			cfg.IdleTimeout = -5
+		}
+		if sc.IdleTimeout > 0 {
+			cfg.IdleTimeout = sc.IdleTimeout
 		}
 		if sc.RealCookie {
 			cfg.CookieCheck = nil
